@@ -18,6 +18,7 @@ type Check struct {
 	ProcsPerWorker   int // GOMAXPROCS of each worker (default 2)
 	QuickBudget      time.Duration
 	ThoroughBudget   time.Duration
+	RacePass         bool // the driver also runs the free-running -race binary (VERIF_RACE_BIN)
 	CrashIsViolation bool // a fatal crash / hang of the code under test on a generated case violates the property
 	Run              func(ctx *report.Ctx)
 }
